@@ -57,14 +57,22 @@ def generate(ck):
     descs = []
     for i in range(n):
         o = wl.oil_params(rng)
+        if i % 8 == 7:
+            # heavy, gas-rich oils with a high bubble point: there the gas FVF falls below dBo/dRs and
+            # the defining combination of the all-pressure compressibility is negative
+            o = wl.oil_params(rng, min_pb=5000.0)
         pb = wl.bubblepoint(*o)
         where = ["below", "at", "above", "below", "just-below", "just-above"][i % 6]
+        if i % 8 == 7:
+            where = "top-5%-below"
         if where == "below":
             p = wl.f(rng.uniform(15.0, pb * 0.999)) if pb * 0.999 > 15 else 15.0
         elif where == "at":
             p = None  # resolved with the library's own bubble point
         elif where == "above":
             p = wl.f(rng.uniform(pb * 1.001, 2.5 * pb))
+        elif where == "top-5%-below":
+            p = pb * (1 - wl.f(rng.uniform(0.001, 0.05)))
         elif where == "just-below":
             p = pb * (1 - 10.0 ** rng.uniform(-12, -3))
         else:
@@ -194,6 +202,8 @@ def run_case(ck, desc):
                 / float(oil.b_o_bubblepoint_Standing(T, api, gg, gor))
             )
             ck.count("compressibility_checked_below_pb")
+            if want < 0:
+                ck.count("compressibility_states_with_negative_combination")
             _cmp(ck, "co==(Bg-dBo/dRs)*dRs/dp/Bob", c, want, desc, {"p": p, "pb": pb, "Bg": bg}, tol=1e-11)
         # the same with the caller's own standard conditions (metric base 15 C / 14.696 psia, 0 C, ...)
         for Tstd, pstd in ((59.0, 14.696), (32.0, 14.65), (68.0, 15.025)):
